@@ -630,6 +630,39 @@ func registryCases(r *ev.Run, e *env) {
 			}
 		}
 	}
+	// every byte value in first and in inner position of a scheme name, classified by RFC 3986
+	// section 3.1 (ALPHA *( ALPHA / DIGIT / "+" / "-" / "." )), which zap's documentation cites
+	alpha := func(c int) bool { return (c >= 'a' && c <= 'z') || (c >= 'A' && c <= 'Z') }
+	for c := 0; c < 256; c++ {
+		for pos := 0; pos < 2; pos++ {
+			id := fmt.Sprintf("c19/regsink-byte/%d/%d", c, pos)
+			if !r.Want(id) {
+				continue
+			}
+			var name string
+			wellFormed := false
+			if pos == 0 {
+				name = string([]byte{byte(c)}) + fmt.Sprintf("vq%dx%d", c, os.Getpid())
+				wellFormed = alpha(c)
+			} else {
+				name = fmt.Sprintf("vr%d", c) + string([]byte{byte(c)}) + fmt.Sprintf("x%d", os.Getpid())
+				wellFormed = alpha(c) || (c >= '0' && c <= '9') || c == '+' || c == '-' || c == '.'
+			}
+			var err error
+			pn := ev.Guard(func() { err = zap.RegisterSink(name, badFactory) })
+			r.Eval(1)
+			r.Distinct("regsink-byte|" + id)
+			r.Count("scheme_name_bytes_classified", 1)
+			switch {
+			case pn != "":
+				r.Violate(ev.Violation{Case: id, Class: "register-panic", Msg: fmt.Sprintf("RegisterSink(%q) panicked: %s", name, pn)})
+			case !wellFormed && err == nil:
+				r.Violate(ev.Violation{Case: id, Class: "register-accepted", Msg: fmt.Sprintf("RegisterSink(%q): a malformed scheme (byte 0x%02x in position %d is not allowed by RFC 3986 section 3.1) was accepted and the registry changed", name, c, pos)})
+			case wellFormed && err != nil:
+				r.Violate(ev.Violation{Case: id, Class: "register-rejected", Msg: fmt.Sprintf("RegisterSink(%q): a well-formed new scheme was rejected: %v", name, err)})
+			}
+		}
+	}
 	for i, nc := range []struct {
 		name     string
 		mustFail bool
